@@ -130,6 +130,7 @@ type Gen struct {
 	instTerms  map[string][]string
 	instGen    int
 	ifaceUse   map[string]bool
+	heapRead   map[string]bool
 }
 
 func (g *Gen) newHV(name, so, term string, kind int, parents ...*HV) *HV {
@@ -141,7 +142,8 @@ func (g *Gen) newHV(name, so, term string, kind int, parents ...*HV) *HV {
 
 func isByteSlice(t types.Type) bool {
 	if sl, ok := t.Underlying().(*types.Slice); ok {
-		b, ok := sl.Elem().Underlying().(*types.Basic)
+		// only []byte itself is a byte string; []Type (type Type byte) is an ordinary slice
+		b, ok := sl.Elem().(*types.Basic)
 		return ok && (b.Kind() == types.Byte || b.Kind() == types.Uint8)
 	}
 	return false
@@ -399,6 +401,9 @@ func (g *Gen) instFrames(hv *HV, r string) {
 
 func (g *Gen) readHeap(st *State, name, ref string) string {
 	hv := g.hv(st, name)
+	if g.heapRead != nil && hv.kind == hvInit {
+		g.heapRead[name] = true
+	}
 	if ref != "" && hv.kind == hvStore && hv.stRef == ref && hv.stVal != "" {
 		return hv.stVal // reading back what was just written to this very location
 	}
